@@ -36,7 +36,7 @@ CallsOf(k) ==
     [] k = "t3issuer" -> {"Evaluate", "EvaluateBad", "KeyID", "NameKey"}
     [] k = "attester" -> {"VerifyGood", "VerifyBad", "Finalize"}
     [] k = "batch"    -> {"Marshal", "Unmarshal", "Evaluate", "DecodeResp"}
-    [] k = "ecdsa"    -> {"Blind", "Unblind", "BlindSign", "Sign", "Verify", "VerifyASN1"}
+    [] k = "ecdsa"    -> {"Blind", "Unblind", "BlindSign", "Sign", "Verify", "VerifyASN1", "CreateKey"}
     [] k = "ed25519"  -> {"Blind", "Unblind", "BlindSign", "Sign", "Verify"}
     [] k = "codec"    -> {"Unmarshal", "Marshal", "UnmarshalBad"}
 
@@ -48,6 +48,7 @@ ArgsOf(k, c) ==
     [] c \in {"VerifyGood", "VerifyBad"} -> {"arg.request", "arg.blind", "arg.clientkey", "arg.anon"}
     [] c = "Finalize" -> {"arg.clientkey", "arg.blind", "arg.blindedkey", "arg.anon"}
     [] c \in {"Unmarshal", "UnmarshalBad", "DecodeResp"} -> {"arg.bytes"}
+    [] c = "CreateKey" -> {"arg.blind"}        \* the encoding a (blind) key object is made from stays the caller's
     [] c \in {"Blind", "Unblind"} -> {"arg.key", "arg.blind", "arg.context"}
     [] c = "BlindSign" -> {"arg.key", "arg.blind", "arg.context", "arg.message"}
     [] c = "Sign" -> {"arg.key", "arg.message"}
@@ -72,7 +73,7 @@ CreatedRegions(k) ==
   IF k \in {"t1state", "t2state", "t3state", "t5state"} THEN {"arg.challenge", "arg.nonce", "arg.keyid", "out.state"} ELSE {}
 
 \* calls that have been seen to build a derived byte string by append()
-AppendsOntoArgument(k, c) == k = "ed25519" /\ c \in {"Blind", "Unblind", "BlindSign"}       \* blind || 0x00 || context
+AppendsOntoArgument(k, c) == k \in {"ed25519", "ecdsa"} /\ c \in {"Blind", "Unblind", "BlindSign"}   \* blind || 0x00 || context
 AppendsOntoHandedOut(k, c) == k = "t3state" /\ c \in {"FinGood", "FinBad"}                  \* enc || response nonce
 \* third deviation seen in the code (D15): the token is assembled by append() in the request state's own buffer, which
 \* has spare capacity, and the returned token points into it - a second successful finalization on the same state
